@@ -15,7 +15,7 @@ from common import (Verdict, coq_eval_files, gen_dir, log, parse_pairs, proof_st
 
 BITS = dict(OUTCOME=1, SELECTED=2, EVENT=4, MICRO=8, CONFIG=16, QUEUES=32, MEMORY=64, TIMES=128,
             TRACE=256, CTX=512, LOGS=1024, BOUND=2048, PROPS=4096, PB_LEGAL=8192, PB_QINV=16384,
-            PB_META=32768, PB_DELIV=65536, PB_REPLAY=131072, PB_TIMES=262144, OLD=524288, PB_HIST=1048576, PB_SLOTS=2097152, PB_FAIL=4194304)
+            PB_META=32768, PB_DELIV=65536, PB_REPLAY=131072, PB_TIMES=262144, OLD=524288, PB_HIST=1048576, PB_SLOTS=2097152, PB_FAIL=4194304, INTERLEAVE=8388608)
 B = type('B', (), BITS)
 KIND_CODES = {0: None, 1: 'entry', 2: 'exit', 3: 'action', 4: 'guard', 5: 'pre', 6: 'inv', 7: 'post'}
 OUT_CODES = {0: 'none', 1: 'macro-none', 2: 'macro', 3: 'ENonDeterminism', 4: 'EConflict', 5: 'EContract',
@@ -297,6 +297,13 @@ def distribution(cases):
             d['transitions_fired'] += nt
             d['multi_transition_steps'] += nt >= 2
             d['stabilisation_steps'] += sum(1 for s in steps if s['trans'] is None and (s['entered'] or s['exited']))
+            try:
+                sts = c['scenario'].sc._states
+                from sismic.model import HistoryStateMixin
+                d['history_restores'] += sum(1 for s in steps if s['trans'] is None and len(s['exited']) == 1
+                                             and isinstance(sts.get(s['exited'][0]), HistoryStateMixin))
+            except Exception:  # noqa
+                pass
             d['events_consumed'] += any(s['event'] is not None for s in steps)
             d['empty_steps'] += (nt == 0 and any(s['event'] is not None for s in steps))
             d['sent_events'] += sum(len(s['sent']) for s in steps)
